@@ -2,7 +2,8 @@
 
 1. TLC runs RespFuzzGen: the response grammar as token sequences, every single-token mutation
    of every conformant line (drop, duplicate, swap, replace by any token of the alphabet,
-   truncate; quick: a seeded 1/64 sample of the untargeted ones), boundary numbers in every
+   truncate; a seeded sample of the untargeted ones: 1/64 quick, 1/2 thorough - seeds 2k and 2k+1
+   are complementary), boundary numbers in every
    numeric slot, every set form in every set slot, malformed literals in every string slot,
    '('^d (10, 999, 1000, 1001; 10^5 and 10^6 on a seeded sample of slots) in every slot that opens
    a list or body, balanced nesting families, double mutations (thorough).  The same run is the
@@ -157,7 +158,7 @@ def run(ctx):
 
     # 4. impl -> spec
     tr = os.path.join(ctx.scratch, "respfuzz.ndjson")
-    n, rawn = (2500, 20000) if quick else (10000, 150000)
+    n, rawn = (2500, 20000) if quick else (10000, 100000)
     xrecs, _, _ = ctx.harness(binp, ["random", g.out_path, tr, "-seed", ctx.seed, "-n", n, "-rawn", rawn], timeout=2400)
     xs = ctx.summary(xrecs)
     take(xrecs)
